@@ -64,14 +64,17 @@ Proof. cbn [astep]. unfold glive. rewrite set_kids_len, set_kids_free. tauto. Qe
 Lemma glive_detach g o a x : glive (astep g (OpDetach o a)) x <-> glive g x.
 Proof. cbn [astep]. unfold glive. rewrite set_kids_len, set_kids_free. tauto. Qed.
 
-Lemma mtyped_pframe_kids s g (t' : T) g' m :
-  gwf g -> mtyped s g m -> pframe (p_tree s) t' -> kids g' m = kids g m -> mtyped (with_tree s t') g' m.
+Lemma mtyped_pframe_kids s g (t' : T) g' m c :
+  gwf g -> mtyped s g m -> pframe (p_tree s) t' -> (forall q, q <> c -> kids g' q = kids g q) -> m <> c -> nnp s c ->
+  mtyped (with_tree s t') g' m.
 Proof.
-  intros Hwf (a0 & a1 & rest & a0o & a1o & v & Hk & Ha0 & Hn0 & Ha1 & Hv & Hn1) Hpf Ek.
+  intros Hwf (a0 & a1 & rest & a0o & a1o & v & Hk & Ha0 & Hn0 & Ha1 & Hv & Hn1 & Hmx) Hpf Ekq Hmc Hnc.
   destruct (proj2 Hpf _ _ Ha0) as (a0o' & Ha0' & E0). destruct (proj2 Hpf _ _ Ha1) as (a1o' & Ha1' & E1).
   destruct (pay_eq_pnv _ _ E0) as (E0' & _). destruct (pay_eq_pnv _ _ E1) as (E1' & V1).
-  exists a0, a1, rest, a0o', a1o', v. rewrite Ek. split; [exact Hk|]. split; [exact Ha0'|]. split; [eapply nodefer_pnv; eauto|].
-  split; [exact Ha1'|]. split; [congruence|eapply nodefer_pnv; eauto].
+  assert (Ha0c : a0 <> c) by (intros ->; destruct Hmx as (_ & M2 & _); exact (Hnc a0o Ha0 M2)).
+  exists a0, a1, rest, a0o', a1o', v. rewrite (Ekq m Hmc). split; [exact Hk|]. split; [exact Ha0'|]. split; [eapply nodefer_pnv; eauto|].
+  split; [exact Ha1'|]. split; [congruence|]. split; [eapply nodefer_pnv; eauto|].
+  apply (mx_pnv g g' a0 a0o a0o' a1o a1o' E0' E1' (Ekq a0 Ha0c) Hmx).
 Qed.
 
 (** the end of both branches: at the end of the package the pkgEnd stack is popped *)
@@ -145,7 +148,7 @@ Proof. intros E1 E2 E3. unfold Psi, lp, rem. rewrite E1, E2, E3. reflexivity. Qe
 
 Lemma step_Dstrict fuel : D_name tbls fuel -> D_objargs tbls fuel -> D_strict tbls (S fuel).
 Proof.
-  intros IHn IHo curObj s g H I0 H0 Hl Hroom HTM. cbn [parseStrictTermArg].
+  intros IHn IHo curObj s g H I0 H0 Hl Hroom HTM Hnnp. cbn [parseStrictTermArg].
   pose proof (fi_rok _ _ H) as Hrok. pose proof (roomD_lp _ _ Hroom) as Hlp.
   pose proof (fi_R _ _ H) as HR. pose proof (R_gwf _ _ HR) as Hwf.
   wbi tbls I0. apply wp_get. intros _.
@@ -203,7 +206,7 @@ Proof.
     { intros (co & op' & fl' & af' & Hco & Hinfo & (k & Hk & Hfl)). assert (co = po5) by congruence. subst co.
       rewrite Hii, Erow in Hinfo. inversion Hinfo; subst. exact (Hnfl k Hk Hfl). }
     assert (HTM5 : TM (eq p) s5 g5).
-    { eapply (TM_frame2 NoX (eq p) NoP (eq curObj) NoP s g s5 g5 Hwf HR HTM F5); try (intros; contradiction); try apply Eok_NoP.
+    { eapply (TM_frame2 NoX (eq p) NoP (eq curObj) NoP s g s5 g5 Hwf HR HTM F5); try (intros; contradiction); try apply Eok_NoP; [intros i <-; exact Hnnp|].
       intros m mo Hm Hmop Hnl. left.
       assert (Hl5m : glive g5 m) by (apply (R_live_glive _ _ (fi_R _ _ H5)); exists mo; split; [exact Hm|rewrite Hmop; discriminate]).
       apply glive_append in Hl5m. destruct (Hlv3 m Hl5m) as [F|F]; [contradiction|symmetry; exact F]. }
@@ -261,8 +264,13 @@ Proof.
         destruct (pframe_inv _ _ _ _ Hpf7 Hm) as (mo6 & Hm6 & E6 & _).
         assert (Ht6 : mtyped s6 g6 m) by (apply (K2 m mo6 Hm6); [congruence|intros []]).
         assert (Hmc : m <> curObj) by (intros E; subst m; contradiction).
-        pose proof (mtyped_pframe_kids s6 g6 t7 g7 m (R_gwf _ _ (fi_R _ _ H6)) Ht6 Hpf7 (Hkq7 m Hmc)) as Ht7.
-        destruct Ht7 as (a0 & a1 & rest & a0o & a1o & v & Q1 & Q2 & Q3 & Q4 & Q5 & Q6).
+        assert (Hnnp6 : nnp s6 curObj).
+        { apply (nnp_keep NoP s g s6 curObj); [|exact HR|exact Hl|exact Hnnp].
+          eapply keep_trans; [apply (fr_keep _ _ _ _ _ _ _ F5)|apply (fr_keep _ _ _ _ _ _ _ G3)| |].
+          - intros y Hy. apply glive_append. apply (ge_live _ _ Hext3). exact Hy.
+          - intros i Hi E. subst i. contradiction. }
+        pose proof (mtyped_pframe_kids s6 g6 t7 g7 m curObj (R_gwf _ _ (fi_R _ _ H6)) Ht6 Hpf7 Hkq7 Hmc Hnnp6) as Ht7.
+        destruct Ht7 as (a0 & a1 & rest & a0o & a1o & v & Q1 & Q2 & Q3 & Q4 & Q5 & Q6 & Q7).
         exists a0, a1, rest, a0o, a1o, v. rewrite E81. auto 10.
       * rewrite E82. change (p_scopeStack s7) with (p_scopeStack s6). rewrite K3.
         destruct A5 as (_ & _ & _ & _ & A55 & _). exact A55.
@@ -280,6 +288,7 @@ Proof.
     wbi tbls I2. eapply wp_weaken; [apply (IHn s2 g curObj (p_scopeStack s) H2 I2 H0 Est2)| |].
     + unfold roomD in *. lia.
     + eapply TM_tree_eq; [exact HTM|reflexivity].
+    + exact Hnnp.
     + auto.
     + intros res s3 (g3 & H3 & X3 & G3 & G4 & G5 & G6) I3.
       destruct (xd_scopes _ _ _ _ X3) as (extra & Es3). rewrite Est2 in Es3.
@@ -350,8 +359,9 @@ Proof.
            assert (Hmc : m <> curObj) by (intros E; subst m; contradiction).
            assert (Ht4 : mtyped s4 g3 m).
            { destruct Ht3 as (a0 & a1 & rest & a0o & a1o & v & Q). exists a0, a1, rest, a0o, a1o, v. exact Q. }
-           pose proof (mtyped_pframe_kids s4 g3 t5 g5 m (R_gwf _ _ (fi_R _ _ H3)) Ht4 Hpf5 (Hkq5 m Hmc)) as Ht5.
-           destruct Ht5 as (a0 & a1 & rest & a0o & a1o & v & Q1 & Q2 & Q3 & Q4 & Q5 & Q6).
+           assert (Hnnp4 : nnp s4 curObj) by (apply (nnp_keep NoP s g s3 curObj (fr_keep _ _ _ _ _ _ _ G3) HR Hl Hnnp)).
+           pose proof (mtyped_pframe_kids s4 g3 t5 g5 m curObj (R_gwf _ _ (fi_R _ _ H3)) Ht4 Hpf5 Hkq5 Hmc Hnnp4) as Ht5.
+           destruct Ht5 as (a0 & a1 & rest & a0o & a1o & v & Q1 & Q2 & Q3 & Q4 & Q5 & Q6 & Q7).
            exists a0, a1, rest, a0o, a1o, v. rewrite E61. auto 10.
         -- rewrite E62. unfold s5, s4. pcbn. rewrite Est3, (He2 eq_refl). reflexivity.
         -- apply Hkids6. exact Hl.
